@@ -392,34 +392,30 @@ def decoder_patterns(p: Program, B: bytes):
         raise AnalysisError("MultipartDecoder.__init__ vanished")
     env = {init.params[1] if len(init.params) > 1 else "boundary": B}
     out = {}
-    for st in init.node.body:
-        tgt = val = None
-        if isinstance(st, ast.Assign) and len(st.targets) == 1:
-            tgt, val = st.targets[0], st.value
+    F.exec_known(mp, init.node.body, env)
+    # every attribute that is (meant to be) a compiled regex
+    for st in ast.walk(init.node):
+        tgts = []
+        if isinstance(st, ast.Assign):
+            tgts = [(t, st.value) for t in st.targets]
+            if len(st.targets) == 1 and isinstance(st.targets[0], (ast.Tuple, ast.List)) and isinstance(st.value, (ast.Tuple, ast.List)) and len(st.targets[0].elts) == len(st.value.elts):
+                tgts = list(zip(st.targets[0].elts, st.value.elts))
+            elif len(st.targets) == 1 and isinstance(st.targets[0], (ast.Tuple, ast.List)):
+                tgts = [(t, st.value) for t in st.targets[0].elts]
         elif isinstance(st, ast.AnnAssign) and st.value is not None:
-            tgt, val = st.target, st.value
-        if tgt is None:
-            continue
-        if isinstance(tgt, ast.Name):
-            try:
-                env[tgt.id] = F.fold(mp, val, env)
-            except NotConst:
-                env.pop(tgt.id, None)
-        elif isinstance(tgt, ast.Attribute) and isinstance(tgt.value, ast.Name) and tgt.value.id == "self" and isinstance(val, ast.Name) and isinstance(env.get(val.id), CompiledRe):
-            out[tgt.attr] = (env[val.id].pattern, env[val.id].flags, st)
-        elif isinstance(tgt, ast.Attribute) and isinstance(tgt.value, ast.Name) and tgt.value.id == "self" and isinstance(val, ast.Call):
-            r = p.resolve_call(init, val)
-            is_re = r == ("ext", "re.compile")
-            if not is_re and not isinstance(r, FuncInfo):
+            tgts = [(st.target, st.value)]
+        for tgt, val in tgts:
+            if not (isinstance(tgt, ast.Attribute) and isinstance(tgt.value, ast.Name) and tgt.value.id == "self"):
                 continue
-            try:
-                v = F.fold(mp, val, env)
-            except NotConst as e:
-                if is_re or _returns_compiled(p, r):
-                    out[tgt.attr] = (None, str(e), st)
-                continue
+            key = f"self.{tgt.attr}"
+            v = env.get(key)
             if isinstance(v, CompiledRe):
                 out[tgt.attr] = (v.pattern, v.flags, st)
+            elif key not in env:
+                # not foldable: report it if it looks like a compiled pattern (re.compile in place / a helper returning one / *_re)
+                r = p.resolve_call(init, val) if isinstance(val, ast.Call) else None
+                if r == ("ext", "re.compile") or _returns_compiled(p, r) or tgt.attr.endswith("_re"):
+                    out.setdefault(tgt.attr, (None, "not a constant expression of the boundary", st))
     return out
 
 
